@@ -17,7 +17,8 @@ LEVEL_TEXT = ("For every combination of p in 1..7, K in 0..9, integer size 0..p+
               "hundreds of seeds and must show every size of the range and every variable.")
 LEVEL_NOTE = "Coverage clauses asserted only where the union bound for a missing value is < 1e-12 at the number of seeds used."
 RULE = ("cases: one call = (p, K, size, replace, seed).  distinct = distinct argument tuple; non-trivial = K >= 1 and max size >= 1 "
-        "(a draw or a refusal actually happens)")
+        "(a draw or a refusal actually happens)"
+        ' Also: numpy-int arguments, p = 65..130 without replacement, the seeded call repeated after the caller edited the lists of an earlier result.')
 ASSUMPTIONS = ["sizes are python ints / 2-tuples of ints as documented"]
 EXHAUSTIVE = {"quick": True, "thorough": True}
 SOFT_LIMIT = {"quick": 240, "thorough": 1500}
